@@ -5,7 +5,8 @@
    C11_real_codec_ok), [lam : node -> result node] is the instruction parser used for lambda bodies
    (arbitrary).  No bound on the depth of the type, the length of a comb or the size of an integer.
    Outside [has_type]: addresses spelt with a bare trailing '%' (known finding C11/empty-entrypoint),
-   types without a modelled value form (big_map, operation, ticket, sapling, never). *)
+   types without a modelled value form (big_map, operation, sapling types); never has no values.
+   Tickets are modelled: (ticketer, contents, amount) rendered as the comb pair address <contents> nat. *)
 From Coq Require Import String List ZArith NArith Bool Arith.
 From Coq.Strings Require Import Byte.
 From PV Require Import Base.Bytes Base.Result Codec.Micheline Codec.MichelineBin Codec.Base58 Codec.Domain
@@ -152,6 +153,16 @@ Example C11_example_roundtrip :
   (match to_mich (real_codec sha0 table43) Optimized ex_val with NSeq l => List.length l | _ => 0%nat end) = 6%nat /\
   forallb (fun m => rval_eqb (of_mich (real_codec sha0 table43) lam0 ex_ty (to_mich (real_codec sha0 table43) m ex_val))
                              (Ok ex_val)) [Readable; Optimized; LegacyOptimized] = true.
+Proof. split; vm_compute; reflexivity. Qed.
+
+(* a ticket inside a pair: never flattened into the enclosing comb, three leaves of its own *)
+Definition ex_ticket_ty : ty := TPair TNat (TTicket (TPair TString TBytes)).
+Definition ex_ticket : val :=
+  VPair (VInt 7) (VTicket (KT1, repeat x07 20) (Some (tx "mint")) (VPair (VString (tx "a")) (VBytes [x00; xff])) 3).
+Example C11_example_ticket :
+  has_type lam0 ex_ticket_ty ex_ticket = true /\
+  forallb (fun m => rval_eqb (of_mich (real_codec sha0 table43) lam0 ex_ticket_ty (to_mich (real_codec sha0 table43) m ex_ticket))
+                             (Ok ex_ticket)) [Readable; Optimized; LegacyOptimized] = true.
 Proof. split; vm_compute; reflexivity. Qed.
 
 Example C11_example_timestamps :
